@@ -80,10 +80,8 @@ M == LET t == Shapes[x.sh].t IN
 OnModel(P) == ph = "model" => P
 Violations == Clauses(M, SpecObs(M))
 
-\* all clauses hold on everything the consumers print -- except the named defects of the code as it is
-ClausesHold == OnModel(\A v \in Violations : Known(v))
-\* the same without exceptions (Summary_MC_strict.cfg: TLC must find the defects from the transcription)
-ClausesHoldStrict == OnModel(Violations = {})
+\* all clauses hold on everything the judged consumers print (no exceptions)
+ClausesHold == OnModel(Violations = {})
 \* no reachable status crashes the v1 tables; the collector equals the census (kept separately so that they are named)
 V1NeverCrashes == OnModel(~V1Run(M).crashed)
 CollectorIsCensus == OnModel(LET st == ColRun(M)  Z == [s \in StatusUniverse(M) |-> 0] IN
@@ -92,7 +90,7 @@ CollectorIsCensus == OnModel(LET st == ColRun(M)  Z == [s \in StatusUniverse(M) 
 \* the fast census used by the clauses is the census by definition (checked on the first shapes only: it is slow)
 CensusFoldIsCensus == OnModel(x.sh <= 2 => LET Z == [s \in StatusUniverse(M) |-> 0] IN
                                 \A k \in KindSet : CensusFold(M, Z, k, 1) = [s \in StatusUniverse(M) |-> CensusOf(M, k, s)])
-\* which known families the design meets (printed once per bucket, for the evidence)
+\* a sample of the explored models for the driver (rebuilt on real model objects)
 AllStat == <<"passed", "failed", "error", "hook_error", "skipped", "untested", "undefined", "pending", "pending_warn",
              "untested_undefined", "untested_pending">>
 SIx(s) == CHOOSE i \in DOMAIN AllStat : AllStat[i] = s
@@ -102,10 +100,8 @@ Hash == LET RECURSIVE h(_, _)
             g(ss, i) == IF i > Len(ss) THEN 0 ELSE (17 * g(ss, i + 1) + h(ss[i], 1) + 3 * i) % 9973
         IN (h(x.status, 1) + 7 * g(x.steps, 1) + x.sh) % 9973
 Emit == OnModel(Hash % EmitMod = 0 =>
-           PrintT(<<"CASE", ToJson([sh |-> x.sh, kind |-> M.kind, children |-> M.children, status |-> x.status, steps |-> x.steps,
-                                    known |-> {ClauseId(v) : v \in Violations}])>>))
+           PrintT(<<"CASE", ToJson([sh |-> x.sh, kind |-> M.kind, children |-> M.children, status |-> x.status, steps |-> x.steps])>>))
 
 QuickShapes == 1..6
-StrictShapes == {1}
 ThoroughShapes == 1..13
 =============================================================================
